@@ -7,3 +7,8 @@ open Comrak.C02
 #print axioms dangerous_invariant_under_escapeHref
 #print axioms no_dangerous_destination
 #print axioms allowed_value_cannot_break_out
+#print axioms dangerous_invariant_under_escapeHref_decoded
+#print axioms allowed_value_is_valueSafe
+#print axioms html_destinations_safe
+#print axioms safe_tokens_safe_bytes
+#print axioms html_safe_bytes
